@@ -16,14 +16,17 @@ Definition strs_eqb (a b:list str) : bool := all2s str_eqb a b.
    observed: per chromosome the lines of the group file and the set collect_reads_in_parallel returned, the set load_read_info returned,
    ordered_groups and group_numeric_ids of a counter built with it *)
 Definition ucase := (bool * list (list str) * (list (list str) * list (list str) * list str * list str * list (str * Z)))%type.
-Definition check_universe (c:ucase) : bool :=
+(* clean: the read-back of the checked-out code (rstrip_nl after commit 40e2502, strip before) *)
+Definition check_universe_gen (clean:str -> str) (c:ucase) : bool :=
   let '(resume, chrs, (files, returned, univ, ordered, ids)) := c in
   let id := fun l:list str => l in
   all2s (fun answers lines => set_eq_str (registered_groups answers) lines && nodup_str lines) chrs files &&
-  all2s (fun answers ret => set_eq_str (chr_groups resume id answers) ret) chrs returned &&
-  set_eq_str (universe resume id id chrs) univ && nodup_str univ &&
-  strs_eqb (counter_ordered (universe resume id id chrs)) ordered &&
+  all2s (fun answers ret => set_eq_str (chr_groups_gen clean resume id answers) ret) chrs returned &&
+  set_eq_str (universe_gen clean resume id id chrs) univ && nodup_str univ &&
+  strs_eqb (counter_ordered (universe_gen clean resume id id chrs)) ordered &&
   all2s (fun g p => str_eqb g (fst p)) ordered ids && all2s (fun i p => Z.of_nat i =? snd p) (seq 0 (length ids)) ids.
+Definition check_universe := check_universe_gen rstrip_nl.
+Definition check_universe_unrepaired := check_universe_gen strip.
 (* the specification on the implementation's output: every group a processed read carries is a key of group_numeric_ids, its id is a position of
    ordered_groups and that position holds the group; ordered_groups has no group that no alignment was given *)
 Fixpoint assoc_str (g:str) (l:list (str * Z)) : option Z := match l with [] => None | p :: t => if str_eqb (fst p) g then Some (snd p) else assoc_str g t end.
@@ -62,5 +65,8 @@ Definition prop_table_strict (c:Z * Z * str * list str * str * option str * list
   registered impl reg &&
   match lookup_last (load_table (Z.to_nat rc) (Z.to_nat gc) d lines) name with
   | None => is_na impl
-  | Some g => ostr_eqb impl (Some g) || negb (safe_group g) || negb (clean_name name)
+  | Some g => ostr_eqb impl (Some g) || negb (safe_group g) || negb (clean_name name)       (* clean_name: non-empty, no white space; may start with '#' *)
   end.
+(* model of the checked-out code for that case: the read's line of the split file read without comment skipping (after commit 614fc16) / GroupedCheck.check_table before *)
+Definition check_table_repaired (c:Z * Z * str * list str * str * option str * list str) : bool :=
+  let '(rc, gc, d, lines, name, impl, reg) := c in ostr_eqb (Some (table_group_repaired (Z.to_nat rc) (Z.to_nat gc) d lines name)) impl.
